@@ -18,9 +18,7 @@ func (e *exec) symFields(id int) map[int]string {
 	for _, b := range h.Map {
 		for _, p := range b {
 			if k, ok := p.Head.(*zygo.SexpSymbol); ok {
-				n := -1
-				fmt.Sscanf(k.Name(), "f%d", &n)
-				out[n] = e.sValue(p.Tail)
+				out[fidx(k.Name())] = e.sValue(p.Tail)
 			}
 		}
 	}
@@ -552,6 +550,12 @@ func jsonable(v *value) bool {
 }
 
 func (g *gen) run() ([]*op, string, bool) {
+	if sch := g.r.Intn(3); sch > 0 {
+		z := &op{kind: 'Z', s: sch}
+		g.e.step(z)
+		g.h = append(g.h, z)
+		g.tg[fmt.Sprintf("names:%d", sch)] = true
+	}
 	n := 4 + g.r.Intn(17)
 	for i := 0; i < n; i++ {
 		o := g.pick()
@@ -583,7 +587,7 @@ func fixedScenarios() []string {
 		out = append(out, fmt.Sprintf("%s ; C 1 0 1 f2 %s", base, v))
 		out = append(out, fmt.Sprintf("%s ; R 0 %s", base, v))
 	}
-	out = append(out,
+	hand := []string{
 		// instances keep their definition across a redeclaration
 		"D 0 1 f0 b0 ; C 0 0 1 f0 I1 ; D 0 1 f0 b2 ; W h 0 f0 I2 ; W h 0 f0 S2 ; C 1 0 1 f0 S1 ; W d 1 f0 I3 ; W x 1 f0 S3",
 		// nested instance, dot path through it
@@ -620,6 +624,9 @@ func fixedScenarios() []string {
 		"D 0 1 f0 L b0 ; C 0 0 0 ; W h 0 f0 A1 H ; W d 0 f0 A2 H I1 ; C 1 0 1 f0 A1 A1 H",
 		// failed declaration leaves the place-holder
 		"D 0 1 f0 s1 ; C 0 0 0 ; C 1 0 1 f0 I1 ; W h 0 f0 I1",
-	)
+	}
+	for _, h := range hand {
+		out = append(out, h, "Z 1 ; "+h, "Z 2 ; "+h)
+	}
 	return out
 }
